@@ -467,7 +467,7 @@ class CUnit:
             txt = open(self.cfile, errors="replace").read()
             # candidates only (a cheap pre-filter so that clang is not asked about every library function): identifiers followed by `(`
             # on a line that does not end the statement
-            self._defined = set(re.findall(r"^[A-Za-z_][\w \t\*]*?\b([A-Za-z_]\w*)[ \t]*\([^;]*$", txt, re.M))
+            self._defined = set(re.findall(r"^(?:[A-Za-z_][\w \t\*]*?\b)?([A-Za-z_]\w*)[ \t]*\([^;]*$", txt, re.M))
         if name not in self._defined:
             return None
         try:
